@@ -182,14 +182,14 @@ func battery(c *TrieCase, st *trie.SlimTrie, qs []string) Ev {
 }
 
 type histRunner struct {
-	t     *Tracer
-	m     *Meta
-	r     *rand.Rand
-	pool  []*poolStream
-	qs    []string
-	enc   *TrieCase // carries the encoder of the pool
-	c20   bool
-	c07   bool
+	t    *Tracer
+	m    *Meta
+	r    *rand.Rand
+	pool []*poolStream
+	qs   []string
+	enc  *TrieCase // carries the encoder of the pool
+	c20  bool
+	c07  bool
 }
 
 // the pool is defined once per trace chunk (the specification keeps it)
@@ -919,4 +919,3 @@ func (hr *histReplay) handle(t *Tracer, name string, e map[string]interface{}) b
 	}
 	return false
 }
-
